@@ -582,9 +582,9 @@ pub fn run(ctx: Ctx) -> ! {
     }
     // (kind, ids in the universe, max depth, wall cap)
     let plan: Vec<(Kind, usize, usize, f64)> = if ctx.quick() {
-        vec![(Kind::Int, 2, 16, 40.0), (Kind::Str, 2, 16, 40.0), (Kind::Ruid, 0, 4, 60.0)]
+        vec![(Kind::Int, 3, 24, 120.0), (Kind::Str, 2, 24, 120.0), (Kind::Ruid, 0, 5, 120.0)]
     } else {
-        vec![(Kind::Int, 3, 24, 600.0), (Kind::Str, 3, 24, 600.0), (Kind::Ruid, 0, 6, 600.0)]
+        vec![(Kind::Int, 3, 24, 900.0), (Kind::Str, 3, 24, 900.0), (Kind::Ruid, 0, 7, 1500.0)]
     };
     let mut total = BfsStats::default();
     let mut per = vec![];
@@ -592,7 +592,7 @@ pub fn run(ctx: Ctx) -> ! {
     for (kind, n, depth, cap) in plan {
         let m = NfMachine::new(&w, kind, n);
         let tag = format!("{kind:?}-ids{n}");
-        let s = bfs(&ctx, &m, &tag, depth, 5_000_000, cap);
+        let s = bfs(&ctx, &m, &tag, depth, 5_000_000, cap * crate::seqx::cap_scale());
         let fix = !s.capped && (s.per_depth_states.last() == Some(&0) || s.depth_completed == depth && s.max_depth < depth);
         per.push(json!({"resource": tag, "states": s.states, "transitions": s.transitions, "max_depth": s.max_depth, "depth_bound": depth, "fixpoint_reached": fix, "capped": s.capped, "per_depth_new_states": s.per_depth_states}));
         exhaustive &= !s.capped;
